@@ -250,7 +250,7 @@ PARTS = {"verlet": (verlet_case, run_verlet), "refresh": (refresh_case, run_refr
 
 def plan(tier):
     if tier == "quick":
-        return [{"part": "verlet", "shards": 10, "budget": {"n_examples": 250}}, {"part": "refresh", "shards": 6, "budget": {"n_examples": 40}}]
+        return [{"part": "verlet", "shards": 10, "budget": {"n_examples": 500}}, {"part": "refresh", "shards": 6, "budget": {"n_examples": 80}}]
     return [{"part": "verlet", "shards": 10, "budget": {"n_examples": 16000}}, {"part": "refresh", "shards": 6, "budget": {"n_examples": 1600}}]
 
 
